@@ -131,7 +131,20 @@ PROPS = {
                      "a user filter's verdict is assumed to be a function of the k-mer only (no hidden state).",
                 technique="postconditions with abstract filter predicate + bounded exhaustive order-2 masks"),
     "C12": dict(title="The local filter implements its window predicate", level="other", bounded=["C12"], design="8/C12",
-                explanation="LocalBioFilter.valid against filter_spec and its metamorphic lemmas.",
+                proof=["dsw.biofilter.LocalBioFilter.valid#norun-nogc-none-whole", "dsw.biofilter.LocalBioFilter.valid#norun-nogc-none-last", "dsw.biofilter.LocalBioFilter.valid#norun-nogc-0-whole", "dsw.biofilter.LocalBioFilter.valid#norun-nogc-0-last", "dsw.biofilter.LocalBioFilter.valid#norun-nogc-1-whole", "dsw.biofilter.LocalBioFilter.valid#norun-nogc-1-last", "dsw.biofilter.LocalBioFilter.valid#norun-nogc-2-whole", "dsw.biofilter.LocalBioFilter.valid#norun-nogc-2-last", "dsw.biofilter.LocalBioFilter.valid#norun-gc-none-whole", "dsw.biofilter.LocalBioFilter.valid#norun-gc-none-last", "dsw.biofilter.LocalBioFilter.valid#norun-gc-0-whole", "dsw.biofilter.LocalBioFilter.valid#norun-gc-0-last", "dsw.biofilter.LocalBioFilter.valid#norun-gc-1-whole", "dsw.biofilter.LocalBioFilter.valid#norun-gc-1-last", "dsw.biofilter.LocalBioFilter.valid#norun-gc-2-whole", "dsw.biofilter.LocalBioFilter.valid#norun-gc-2-last", "dsw.biofilter.LocalBioFilter.valid#run-nogc-none-whole", "dsw.biofilter.LocalBioFilter.valid#run-nogc-none-last", "dsw.biofilter.LocalBioFilter.valid#run-nogc-0-whole", "dsw.biofilter.LocalBioFilter.valid#run-nogc-0-last", "dsw.biofilter.LocalBioFilter.valid#run-nogc-1-whole", "dsw.biofilter.LocalBioFilter.valid#run-nogc-1-last", "dsw.biofilter.LocalBioFilter.valid#run-nogc-2-whole", "dsw.biofilter.LocalBioFilter.valid#run-nogc-2-last", "dsw.biofilter.LocalBioFilter.valid#run-gc-none-whole", "dsw.biofilter.LocalBioFilter.valid#run-gc-none-last", "dsw.biofilter.LocalBioFilter.valid#run-gc-0-whole", "dsw.biofilter.LocalBioFilter.valid#run-gc-0-last", "dsw.biofilter.LocalBioFilter.valid#run-gc-1-whole", "dsw.biofilter.LocalBioFilter.valid#run-gc-1-last", "dsw.biofilter.LocalBioFilter.valid#run-gc-2-whole", "dsw.biofilter.LocalBioFilter.valid#run-gc-2-last", "harness.c12_rc_code_is_reverse_complement"],
+                explanation="PROVED on the real LocalBioFilter.valid, for strings over ANY alphabet and every configuration shape (run limit present/absent x "
+                            "GC range present/absent x motif list None / 0..2 motifs (each motif an arbitrary string) x whole-sequence / last-window): the "
+                            "verdict equals filter_ok = all characters A/C/G/T, no nucleotide repeated run+1 times, neither a motif nor the reverse "
+                            "complement the code computes occurs (substring test = predicate occ), every window of the observed length has G+C within "
+                            "[lo*k, hi*k] (shorter string: G+C <= hi*k and A+T <= (1-lo)*k), with the float products as the opaque terms the code itself "
+                            "computes; the last-window verdict is the whole-sequence verdict of s[-k:]; no exception can escape.  A harness proves that "
+                            "the four replaces + reverse + upper compute the Watson-Crick reverse complement character by character.  BOUNDED (never "
+                            "counted as proved): the two metamorphic consequences (window conjunction for decidable configurations, reverse-"
+                            "complement invariance) - they need the inductive definition of substring occurrence, see DESIGN 8/C12.",
+                demoted=["window-conjunction lemma - bounded B2 (all strings <= 5/7 over ACGT x configuration grid)",
+                         "reverse-complement invariance - bounded B2", "motif lists longer than 2 motifs - same loop body, bounded"],
+                claim="Mixed: verdict clauses deductive; the two relational lemmas bounded.",
+                note="Trusted: str.replace/upper/[::-1]/count/`in` contracts (DESIGN 2); machine floats not reasoned about (opaque products shared by code and spec).",
                 technique="postcondition of LocalBioFilter.valid against the window predicate + bounded exhaustive short strings"),
     "C13": dict(title="Vertex indices are k-mers, arcs are shift-append", level="proof", bounded=["C13"], design="8/C13",
                 proof=["dsw.graphized.obtain_latters", "dsw.graphized.obtain_formers", "dsw.graphized.get_complete_accessor",
